@@ -394,7 +394,13 @@ pub fn generate(p: &SamParams) -> SamModel {
             mapq = if p.cram_safe { 0 } else { *rng.pick(&[0u32, 255]) };
             cigar = "*".into();
             let alpha: &[u8] = if p.cram_safe || rng.chance(4, 5) { BASES4 } else { BASES16 };
-            seq = (0..read_len).map(|_| *rng.pick(alpha)).collect();
+            seq = if rng.chance(1, 5) {
+                // homopolymer / poly-N read
+                let b = *rng.pick(b"ANTG");
+                vec![b; read_len]
+            } else {
+                (0..read_len).map(|_| *rng.pick(alpha)).collect()
+            };
             recs.push((usize::MAX, 0, String::new()));
         }
         // mate fields
@@ -426,7 +432,14 @@ pub fn generate(p: &SamParams) -> SamModel {
         let qual: String = if seq.is_empty() || (!p.cram_safe && rng.chance(1, 6)) {
             "*".into()
         } else {
-            let mut q: String = (0..seq.len()).map(|_| (b'!' + rng.below(60) as u8) as char).collect();
+            // a quarter of the reads carry one quality value throughout (binned / capped qualities:
+            // long runs, which DEFLATE turns into runs of zero bits)
+            let mut q: String = if rng.chance(1, 4) {
+                let c = *rng.pick(b"IF#5") as char;
+                (0..seq.len()).map(|_| c).collect()
+            } else {
+                (0..seq.len()).map(|_| (b'!' + rng.below(60) as u8) as char).collect()
+            };
             // a quality string that is exactly "*" means "missing"
             if q == "*" {
                 q = "+".into();
